@@ -95,6 +95,28 @@ def real_reformat_pairs(ctx):
             ctx.nontrivial(('real-reformat', text))
 
 
+def real_bytes_pairs(ctx):
+    """the replay writes back exactly the bytes a run of the pass left: a test case with carriage returns, form feeds and
+    bytes outside ASCII, a test that needs them, the same pass run twice (the second run is a replay)"""
+    import worldlib as W
+    for text, pred, latin1 in (('int keep1;\r\nint x;\r\n', "grep -q keep1 a.c && grep -q 'int x' a.c && grep -q $'\\r' a.c", False),
+                               ('int keep1;\rint x;\r', "grep -q keep1 a.c && grep -q $'\\r' a.c", False),
+                               ('int keep1;\f\n\r\nint x;\v\n', "grep -q keep1 a.c && grep -q 'int x' a.c && grep -q $'\\r' a.c", False)):
+        outs = {}
+        for nc in (False, True):
+            scen = {'name': 'bytes-revisit', 'tree': {'a.c': {'text': text, 'latin1': latin1}}, 'test_cases': ['a.c'], 'predicate': pred,
+                    'groups': {'first': [{'name': 'LinePass'}, {'name': 'LinePass'}], 'main': [{'name': 'LinePass'}], 'last': [{'name': 'LinePass'}]},
+                    'N': 2, 'timeout': 5, 'cfg': {'no_cache': nc}}
+            obs = W.run(ctx, scen)
+            ctx.count()
+            outs[nc] = (obs['outcome'], (obs.get('after') or {}).get('a.c'))
+        if outs[False] != outs[True]:
+            ctx.report('cache-changes-the-result:bytes', f'test case {text!r}, a pass that accepts nothing run four times: with the table {outs[False]}, with --no-cache {outs[True]}',
+                       {'kind': 'real-bytes-pair', 'text': text})
+        else:
+            ctx.nontrivial(('real-bytes', text))
+
+
 def run_pairs(ctx, scen_list, diffs, judge_multi=False):
     on = scen_list
     off = []
@@ -124,6 +146,10 @@ def run_pairs(ctx, scen_list, diffs, judge_multi=False):
 def run(ctx):
     if ctx.replay:
         obj = json.load(open(ctx.replay))
+        if obj.get('kind') == 'real-bytes-pair':
+            real_bytes_pairs(ctx)
+            print('replayed ->', 'fails' if ctx.violations else 'holds')
+            return 1 if ctx.violations else 0
         if obj.get('kind') == 'real-pair':
             real_reformat_pairs(ctx)
             print('replayed ->', 'fails' if ctx.violations else 'holds')
@@ -140,6 +166,7 @@ def run(ctx):
     hits, rows = run_pairs(ctx, scens(ctx, n) + [twin_family(ctx.rng) for _ in range(6)], diffs)
     hits2, _ = run_pairs(ctx, scens(ctx, n // 4, files=(2, 3)), diffs, judge_multi=True)
     real_reformat_pairs(ctx)
+    real_bytes_pairs(ctx)
     ctx.sample({'scenario_key': D.scen_key(rows[0][0]), 'with_cache': rows[0][2]})
 
     def search(budget):
